@@ -204,7 +204,9 @@ func (s *state) Add(ctx context.Context, transaction Transaction, payload []byte
 		return s.updateState(tx, transaction)
 	}, stoabs.OnRollback(func() {
 		log.Logger().Warn("Reloading the XOR and IBLT trees due to a DB transaction Rollback")
-		s.loadState(ctx)
+		// do not use ctx: the rollback may be caused by ctx being cancelled/expired, in which case the reload would fail
+		// and the rolled-back transaction would stay in the in-memory trees and lamportClockHigh.
+		s.loadState(context.Background())
 	}), stoabs.AfterCommit(func() {
 		if txAdded {
 			s.notify(txEvent)
